@@ -196,7 +196,7 @@ class LIBCONFIGXX_API Setting
 
   inline Type getType() const { return(_type); }
 
-  inline Format getFormat() const { return(_format); }
+  Format getFormat() const;
   void setFormat(Format format);
 
   operator bool() const;
